@@ -141,6 +141,13 @@ func init() {
 			for i := 0; i < n; i++ {
 				ac := genAuthCase(c.Rng)
 				sc, ss := ac.scenario()
+				if c.Rng.Chance(30) {
+					// the SAME Client dials a second time (Close in between) against a fresh incarnation of the server: a
+					// conforming verifier accepts exactly when the credentials are right, on every connection (the PLUS
+					// variants: channel-binding data of THIS connection)
+					c14Redial(c, ac, sc, ss)
+					continue
+				}
 				run := runDialCase(c, sc, fmt.Sprintf("%s:tls=%d:right=%v", ac.mech, ac.tlsMode, ac.pass == ac.srvPass), true)
 				if run == nil {
 					continue
@@ -250,6 +257,18 @@ func init() {
 				for _, seq := range scramRedialSeqs {
 					runScramSequenceWith(c, mech, seq, true)
 				}
+				// ... and a channel-bound one (the PLUS variants): second connections, restarts, the short sequences
+				for _, seq := range scramRedialSeqs {
+					runScramSequenceWith(c, mech+"-PLUS", seq, true)
+				}
+				for _, seq := range scramRestartSeqs {
+					runScramSequenceWith(c, mech+"-PLUS", seq, true)
+				}
+				for _, seq := range seqs {
+					if len(seq) <= 2 {
+						runScramSequenceWith(c, mech+"-PLUS", seq, true)
+					}
+				}
 			}
 		}})
 
@@ -339,6 +358,8 @@ func init() {
 				sc.Debug = true
 				sc.LogAuth = r.Chance(10)
 				sc.ThenReset = true
+				// the mechanism handed over as an smtp.Auth value of the caller (the capturing logger is the caller's too)
+				sc.CustomAuth = r.Chance(25)
 				behaviour := r.Intn(6)
 				base := sc.dynamic
 				step := r.Intn(3)
@@ -366,7 +387,7 @@ func init() {
 					}
 					return SrvAction{}, false
 				}
-				run := runDialCase(c, sc, fmt.Sprintf("%s:behaviour=%d:logauth=%v", ac.mech, behaviour, sc.LogAuth), true)
+				run := runDialCase(c, sc, fmt.Sprintf("%s:behaviour=%d:logauth=%v:custom=%v", ac.mech, behaviour, sc.LogAuth, sc.CustomAuth), true)
 				if run == nil {
 					continue
 				}
@@ -375,10 +396,58 @@ func init() {
 			// stock loggers: formatted output scanned for the secrets
 			for _, mech := range []string{"PLAIN-NOENC", "LOGIN-NOENC", "XOAUTH2", "CRAM-MD5"} {
 				for _, js := range []bool{false, true} {
-					stockLoggerRun(c, mech, js)
+					stockLoggerRun(c, mech, js, false)
+					stockLoggerRun(c, mech, js, true)
 				}
 			}
 		}})
+}
+
+// c14Redial: two dials of one Client, each against its own reference SASL server
+func c14Redial(c *Ctx, ac authCase, sc *DialScenario, ss *saslServer) {
+	sc2, ss2 := ac.scenario()
+	sc2.Variant = 0
+	sc.Redial = sc2
+	run := RunDial(sc)
+	if run.Panic != nil || (run.Second != nil && run.Second.Panic != nil) {
+		c.Violate("dial-panic", fmt.Sprintf("the client panicked: %v", run.Panic), sc)
+		return
+	}
+	if run.Err != nil && strings.HasPrefix(run.Err.Error(), "config:") {
+		return
+	}
+	first := *sc
+	first.Redial = nil
+	branch := fmt.Sprintf("%s:tls=%d:right=%v:redial", ac.mech, ac.tlsMode, ac.pass == ac.srvPass)
+	c.AddCase(Case{Line: first.modelLine(run), Want: run.wantLine(), Nontrivial: true, Branch: branch, Desc: sc})
+	if run.Second != nil {
+		c.AddCase(Case{Line: sc2.modelLine(run.Second), Want: run.Second.wantLine(), Nontrivial: true, Branch: branch + ":second", Desc: sc})
+	}
+	c.rep.OracleChecked++
+	right := ac.pass == ac.srvPass
+	_, uok := scramNormUser(ac.user)
+	_, pok := scramNormPass(ac.pass)
+	if strings.HasPrefix(ac.mech, "SCRAM") && (!uok || !pok) {
+		return
+	}
+	for k, rr := range []*DialRun{run, run.Second} {
+		if rr == nil {
+			continue
+		}
+		srv := []*saslServer{ss, ss2}[k]
+		which := []string{"first", "second"}[k]
+		switch {
+		case right && rr.Err != nil:
+			c.Violate("c14-right-credentials-rejected", fmt.Sprintf("%s, %s connection of the Client: correct credentials were not accepted: client error %v, server: %s", ac.mech, which, rr.Err, srv.Rejected), sc)
+		case right && !srv.Accepted:
+			c.Violate("c14-success-without-server-accept", fmt.Sprintf("%s, %s connection: the client reports success but the reference server never accepted", ac.mech, which), sc)
+		case !right && (rr.Err == nil || srv.Accepted):
+			c.Violate("c14-wrong-credentials-accepted", fmt.Sprintf("%s, %s connection: a wrong password was accepted", ac.mech, which), sc)
+		}
+	}
+	if run.Second != nil && run.Second.Err == nil {
+		_ = run.Client.Close()
+	}
 }
 
 // oracleLogs: with auth-data logging off, no record contains a secret, a client response or a 3xx payload
@@ -455,7 +524,7 @@ func oracleLogs(c *Ctx, sc *DialScenario, run *DialRun) {
 	}
 }
 
-func stockLoggerRun(c *Ctx, mech string, json bool) {
+func stockLoggerRun(c *Ctx, mech string, json, custom bool) {
 	ac := authCase{mech: mech, user: "stock-user", pass: "St0ck-Secr3t-V4lue", srvPass: "St0ck-Secr3t-V4lue"}
 	sc, _ := ac.scenario()
 	var buf bytes.Buffer
@@ -467,8 +536,12 @@ func stockLoggerRun(c *Ctx, mech string, json bool) {
 	}
 	srv := NewRefServer(sc.Caps, sc.Script)
 	srv.Dynamic = sc.dynamic
+	authOpt := mail.WithSMTPAuth(mail.SMTPAuthType(mech))
+	if custom {
+		authOpt = mail.WithSMTPAuthCustom(directAuth(&DialScenario{AuthType: mech, User: ac.user, Pass: ac.pass, Host: sc.Host}))
+	}
 	client, err := mail.NewClient(sc.Host, mail.WithDialContextFunc(scriptedDialer(srv)), mail.WithTLSPolicy(mail.NoTLS),
-		mail.WithSMTPAuth(mail.SMTPAuthType(mech)), mail.WithUsername(ac.user), mail.WithPassword(ac.pass), mail.WithDebugLog(), mail.WithLogger(lg))
+		authOpt, mail.WithUsername(ac.user), mail.WithPassword(ac.pass), mail.WithDebugLog(), mail.WithLogger(lg))
 	if err != nil {
 		c.Note("stock logger config: %v", err)
 		return
@@ -478,7 +551,7 @@ func stockLoggerRun(c *Ctx, mech string, json bool) {
 		_ = client.Reset()
 		_ = client.Close()
 	}
-	c.Count(true, fmt.Sprintf("stock:%s:%v", mech, json), "stock-logger")
+	c.Count(true, fmt.Sprintf("stock:%s:%v:%v", mech, json, custom), "stock-logger")
 	c.rep.OracleChecked++
 	out := buf.Bytes()
 	if f := containsSecret(out, ac.user, ac.pass); f != "" {
